@@ -164,8 +164,8 @@ class Kroupa:
 
     def _mom1(self, xmin, xmax, a):
         """ Second moment """
-        if a == 0:
-            return np.log(xmin) - np.log(xmax)
+        if a == 2:
+            return np.log(xmax) - np.log(xmin)
         else:
             return (pow(xmax, 2.0 - a) - pow(xmin, 2.0 - a)) / (2.0 - a)
 
